@@ -114,6 +114,9 @@ func actionSetup(c *cli.Command) (meta actionMeta, err error) {
 	if meta.workers < 1 {
 		return meta, fmt.Errorf("--%s flag must be > 0", workersFlag)
 	}
+	if meta.workers > config.MaxConcurrency {
+		return meta, fmt.Errorf("--%s flag cannot be > %d", workersFlag, config.MaxConcurrency)
+	}
 
 	var fromFile bool
 	meta.cfg, fromFile, err = config.Load(c.String(configFlag), c.IsSet(configFlag))
